@@ -39,6 +39,8 @@ type hookCase struct {
 	// Extra: this many further bytes follow the reply on the transport (an oversized reply: the call ends with the too-long error, the
 	// hooks must still see every read exactly). Deliver/Cuts then count over reply+extra.
 	Extra int `json:"extra,omitempty"`
+	// Prior: an earlier call on the same client and the same hooks (success | ioerr); only the judged call's hook calls are compared
+	Prior string `json:"prior,omitempty"`
 }
 
 func scenario(c hookCase) (cli.Scenario, []byte, error) {
@@ -94,7 +96,7 @@ func scenario(c hookCase) (cli.Scenario, []byte, error) {
 		ev = append(ev, xport.Event{Kind: "eof", N: 0})
 	}
 	ev = append(ev, xport.Event{Kind: "ioerr", N: 0}) // backstop
-	return cli.Scenario{Kind: c.Kind, Req: c.Req, Stream: reply[:n], Events: ev, ReadTimeoutMs: 5000, CustomParse: c.CustomParse}, reply, nil
+	return cli.Scenario{Kind: c.Kind, Req: c.Req, Stream: reply[:n], Events: ev, ReadTimeoutMs: 5000, CustomParse: c.CustomParse, Prior: c.Prior}, reply, nil
 }
 
 func outcomeText(o cli.Outcome) string {
@@ -125,6 +127,9 @@ func runHook(c hookCase) harness.Result {
 		return harness.Fail("call did not return")
 	}
 	labels := []string{"kind:" + c.Kind, fmt.Sprintf("fc%d", c.Req.FC), "terminal:" + c.Terminal}
+	if c.Prior != "" {
+		labels = append(labels, "after-earlier-call")
+	}
 	if c.Extra > 0 {
 		labels = append(labels, "oversized-reply")
 		tot := 0
@@ -278,6 +283,9 @@ func genHook(t *rapid.T, kinds []string) hookCase {
 		c.GapKind = "timeout"
 		c.Terminal = rapid.SampledFrom([]string{"ioerr", "eof", "eof-with-bytes", "ioerr-with-bytes"}).Draw(t, "terminal")
 		c.CustomParse = rapid.Bool().Draw(t, "custom_parse")
+	}
+	if rapid.IntRange(0, 3).Draw(t, "with_prior") == 0 {
+		c.Prior = rapid.SampledFrom([]string{"success", "ioerr"}).Draw(t, "prior")
 	}
 	return c
 }
